@@ -219,6 +219,49 @@ pub fn run() -> i32 {
     r.boxes.push(json!({"box": "alpha inside a set alternative (context set / input set), later use plain or inverted; disjoint alternatives", "rules": sforms.len(), "outer_segments": pick.len(), "cases": t4.evals, "model_predicts_firing": t4.nontrivial}));
     r.guard(t4.nontrivial > 10_000, "box 4: more than 10k cases fire");
     tot.evals += t4.evals; tot.nontrivial += t4.nontrivial; tot.viols.extend(t4.viols); tot.states.extend(t4.states);
+    // ---- box 6: bindings made by an environment that then fails belong to that attempt only. (a) an environment set whose first alternative binds the
+    // alpha on x and then fails on y, while the second binds it on y: `t > [tone:7] / :{ _ [αF] p, _ [] [αF] }:` (both orders) on /t x y/ fires iff
+    // (F defined on x and y = p) or F defined on y. (b) insertion between two contexts, `* > ə / [αF] _ [αF]` on /x y z/: a schwa between every
+    // two neighbours that agree in F (a rejected site must not decide the next one)
+    let small: Vec<SegBits> = ["p", "t", "d", "b", "s", "z", "a", "i", "u", "m", "h", "k"].iter().map(|t| seg(t)).collect();
+    let pp = seg("p"); let schwa = seg("ə");
+    let mut t6 = Acc { evals: 0, nontrivial: 0, viols: vec![], states: Default::default(), fired: 0 };
+    par_fold(26 * 3, 1, || Acc { evals: 0, nontrivial: 0, viols: vec![], states: Default::default(), fired: 0 }, |i, a| {
+        let (f, form) = (i / 3, i % 3);
+        let af = format!("[α{}]", FEATS[f].0);
+        let text = match form { 0 => format!("t > [tone:7] / :{{ _ {} p, _ [] {} }}:", af, af), 1 => format!("t > [tone:7] / :{{ _ [] {}, _ {} p }}:", af, af), _ => format!("* > ə / {} _ {}", af, af) };
+        let Out::Ok(Ok(compiled)) = guarded(5_000_000, || av::compile(&[group(&[&text])])) else { a.viols.push(Viol { key: format!("compile|{}", text), desc: format!("`{}` does not compile", text), case: json!({"rule": text}) }); return; };
+        let mut cases: Vec<(CW, CW, bool)> = vec![];
+        if form < 2 {
+            for x in &small { for y in &small { if *x == tt || *y == tt || x == y { continue; }
+                let w: CW = vec![CSyl { segs: vec![tt, *x, *y], stress: 0, tone: 0 }];
+                let fires = (model::feat(*x, f).is_some() && *y == pp) || model::feat(*y, f).is_some();
+                let mut e = w.clone(); if fires { e[0].tone = 7; }
+                cases.push((w, e, fires));
+            } }
+        } else {
+            for x in &small { for y in &small { for z in &small { if x == y || y == z || *x == schwa { continue; }
+                let w: CW = vec![CSyl { segs: vec![*x, *y, *z], stress: 0, tone: 0 }];
+                let agree = |l: SegBits, r: SegBits| matches!((model::feat(l, f), model::feat(r, f)), (Some(p), Some(q)) if p == q);
+                let mut segs = vec![*x]; let mut n = 0;
+                if agree(*x, *y) { segs.push(schwa); n += 1; } segs.push(*y);
+                if agree(*y, *z) { segs.push(schwa); n += 1; } segs.push(*z);
+                cases.push((w, vec![CSyl { segs, stress: 0, tone: 0 }], n > 0));
+            } } }
+        }
+        for (w, e, fires) in cases {
+            a.evals += 1;
+            match guarded(400_000, || av::apply_group(&compiled, 0, word_of(&w)).map(|x| cw_of(&x))) {
+                Out::Ok(Ok(got)) if got == e => { if fires { a.nontrivial += 1; } a.states.insert(hash64(&(f, form, fires))); }
+                Out::Ok(Ok(got)) => a.viols.push(Viol { key: format!("{}|{}", text, show_cw(&w)), desc: format!("`{}` on /{}/: model /{}/, implementation /{}/", text, show_cw(&w), show_cw(&e), show_cw(&got)), case: json!({"rule2": text, "word": cw_json(&w), "expected": cw_json(&e)}) }),
+                Out::Ok(Err(er)) => a.viols.push(Viol { key: format!("{}|{}", text, show_cw(&w)), desc: format!("`{}` on /{}/: error {:?}", text, show_cw(&w), er), case: json!({"rule2": text, "word": cw_json(&w), "expected": cw_json(&e)}) }),
+                o => a.viols.push(Viol { key: format!("crash|{}", text), desc: o.crash_desc().unwrap(), case: json!({"rule2": text, "word": cw_json(&w), "expected": cw_json(&e)}) }),
+            }
+        }
+    }, |a| { t6.evals += a.evals; t6.nontrivial += a.nontrivial; t6.viols.extend(a.viols); t6.states.extend(a.states); });
+    r.boxes.push(json!({"box": "alphas bound by an environment that then fails: environment sets (both orders) and insertion between two contexts", "rules": 78, "cases": t6.evals, "model_predicts_change": t6.nontrivial}));
+    r.guard(t6.nontrivial > 5_000, "box 6: more than 5000 cases change the word");
+    tot.evals += t6.evals; tot.nontrivial += t6.nontrivial; tot.viols.extend(t6.viols); tot.states.extend(t6.states);
     // ---- box 5: an IPA letter with a matrix, `b:[vF]`, stands for exactly one bundle — the letter's own with F set to v (every other feature and every
     // node, present or absent, as in the letter). Probed on the letter's whole family: all 365 base phones and the letter with each diacritic
     let letters = ["t", "d", "k", "p", "s", "n", "m", "l", "a", "i", "u", "h", "ʔ", "q", "ʃ", "x"];
